@@ -1,3 +1,377 @@
-import ElfioVerif.Model.Load
+/-
+C01 — loading and inspecting arbitrary bytes is memory-safe and terminates.
+
+Everything here is about the checked-memory model of the loader (Model/Load.lean: every buffer
+access is a checked read, so "the model returns `.ok`" means "no access left a buffer, no null
+was dereferenced"), for ALL byte strings, both stream kinds, both `isLazy` values, any initial
+object, any address-translation table unless a hypothesis says otherwise.  Termination is by
+construction (all model functions are structurally recursive).
+
+  load_total        the loader never faults
+  load_inv          every section / segment of the result satisfies `LoadedSec` / `LoadedSeg`
+  load_alloc_bound  no allocation request exceeds len+1   (no translation, len < 2^64)
+  load_alloc_shape  every request is size+1 for a byte range inside the input, so a request of
+                    exactly len+1 bytes is for the range [0, len) (finding F11)
+  getData_inv       arbitrary interleavings of (lazy) data requests and free_data() keep the
+                    invariants, and their allocation requests obey the same bound
+  getString_total   the string reader is safe for EVERY 32-bit index on every loaded section;
+                    what it returns is a NUL-free run of bytes of the input inside [0,size)
+  exposes_only_file_bytes (also used by C17)
+
+Remark (`validate_total`): `validate` (Model/Validate.lean) is a total pure function on `Obj`
+(no `M`, no fuel), so "validate() always returns and touches no buffer" holds by construction.
+-/
+import ElfioVerif.Lemmas.LoadSafety
+import ElfioVerif.Model.Validate
 namespace ElfioVerif.C01
+open ElfioVerif Gen
+
+/-! ### the loader -/
+
+/-- Loading ANY byte string (eagerly or lazily, string- or file-backed stream, any stream state,
+    any address translation table, any previous object) never faults: the only checked access of
+    the loader, the section-name lookup, stays inside the string-table buffer. -/
+theorem load_total (o : Obj) (img : Bytes) (kind : StreamKind) (isLazy : Bool) :
+    ∃ r, load o { data := img, kind := kind } isLazy = .ok r := by
+  obtain ⟨r, hr, -⟩ := load_spec o { data := img, kind := kind } isLazy
+  exact ⟨r, hr⟩
+
+/-- the same for a stream in an arbitrary state (position, eof/fail bits) -/
+theorem load_total_anyStream (o : Obj) (st : IStream) (isLazy : Bool) :
+    ∃ r, load o st isLazy = .ok r := by
+  obtain ⟨r, hr, -⟩ := load_spec o st isLazy
+  exact ⟨r, hr⟩
+
+/-- Every section and segment of a loaded object satisfies the loader invariants
+    (`LoadedSec`, `LoadedSeg`: Lemmas/LoadSafety.lean), and the object keeps the input stream. -/
+theorem load_inv (o : Obj) (img : Bytes) (kind : StreamKind) (isLazy : Bool) (r : LoadRes)
+    (h : load o { data := img, kind := kind } isLazy = .ok r) :
+    (∀ b ∈ r.obj.secs, LoadedSec o.trans b img) ∧ (∀ g ∈ r.obj.segs, LoadedSeg o.trans g img) ∧
+    r.obj.stream.data = img ∧ r.obj.stream.kind = kind ∧ r.obj.trans = o.trans := by
+  obtain ⟨r', hr, hp⟩ := load_spec o { data := img, kind := kind } isLazy
+  rw [h] at hr
+  cases hr
+  exact ⟨hp.secs, hp.segs, hp.sdata, hp.skind, hp.trans⟩
+
+/-- `section_impl::load` establishes `LoadedSec` whatever the bytes and the stream state. -/
+theorem secLoad_inv (c : Cls) (enc : Enc) (tr : List Trans) (st : IStream) (hdrOff : Int)
+    (isLazy : Bool) (idx : Nat) :
+    LoadedSec tr (secLoad c enc tr { st := st } hdrOff isLazy idx).2 st.data :=
+  (secLoad_spec c enc tr { st := st } hdrOff isLazy idx st.data st.kind
+    ⟨rfl, rfl, fun a ha => by cases ha⟩).2
+
+/-- `segment_impl::load` establishes `LoadedSeg`. -/
+theorem segLoad_inv (c : Cls) (enc : Enc) (tr : List Trans) (st : IStream) (hdrOff : Int)
+    (isLazy : Bool) :
+    LoadedSeg tr (segLoad c enc tr { st := st } hdrOff isLazy).2.1 st.data :=
+  (segLoad_spec c enc tr { st := st } hdrOff isLazy st.data st.kind
+    ⟨rfl, rfl, fun a ha => by cases ha⟩).2
+
+/-! ### what the invariant gives the accessor families -/
+
+/-- a resident buffer is strictly longer than the section size (room for the terminator) -/
+theorem LoadedSec.size_lt {tr img} {b : SecBuf} (h : LoadedSec tr b img) {d : Bytes}
+    (hd : b.data = some d) : b.size.toNat < d.length := h.bufOk d hd
+
+/-- the `buf` / `cap` facts of `SecBuf.Resident` (Props/C07.lean) for a resident loaded buffer -/
+theorem LoadedSec.resident_facts {tr img} {b : SecBuf} (h : LoadedSec tr b img) {d : Bytes}
+    (hd : b.data = some d) :
+    b.size.toNat ≤ b.dataSize.toNat ∧ b.dataSize.toNat ≤ d.length ∧
+    b.dataSize.toNat ≤ 3 * b.size.toNat := by
+  have h1 := h.len d hd
+  have h2 := h.dsz d hd
+  rw [h2]; omega
+
+/-- a checked read of any range inside `[0, size]` of a resident loaded section succeeds -/
+theorem LoadedSec.rdRange_ok {tr img} {b : SecBuf} (h : LoadedSec tr b img) {d : Bytes}
+    (hd : b.data = some d) (site : String) (off len : Nat) (hr : off + len ≤ b.size.toNat + 1) :
+    rdRange site b.data off len = .ok (slice d off len) := by
+  rw [hd]
+  exact rdRange_some_ok (by have := h.len d hd; omega)
+
+/-- No section ever exposes bytes that are not in the input: the `size` visible bytes of a
+    resident buffer are one contiguous slice of the input (at the translated offset). -/
+theorem exposes_only_file_bytes {tr img} {b : SecBuf} (h : LoadedSec tr b img) {d : Bytes}
+    (hd : b.data = some d) :
+    d.take b.size.toNat = slice img (dataOff tr b.offset).toNat b.size.toNat ∧
+    (dataOff tr b.offset).toNat + b.size.toNat ≤ img.length ∨ b.size = 0 := by
+  by_cases hz : b.size = 0
+  · exact Or.inr hz
+  · left
+    obtain ⟨h1, h2⟩ := h.bytes d hd
+    refine ⟨h1, ?_⟩
+    have hpos : 0 < b.size.toNat := by
+      rcases Nat.eq_zero_or_pos b.size.toNat with h0 | h0
+      · exact absurd (BitVec.eq_of_toNat_eq (by simpa using h0)) hz
+      · exact h0
+    rw [slice_length] at h2
+    omega
+
+theorem seg_exposes_only_file_bytes {tr img} {g : Seg} (h : LoadedSeg tr g img) {d : Bytes}
+    (hd : g.data = some d) :
+    d.take g.filesz.toNat = slice img (dataOff tr g.offset).toNat g.filesz.toNat ∧
+    (slice img (dataOff tr g.offset).toNat g.filesz.toNat).length = g.filesz.toNat :=
+  h.bytes d hd
+
+/-! ### allocation requests -/
+
+/-- Every allocation request of a load is `size + 1` bytes for a byte range `[off, off+size)`
+    inside the input; in particular it is at most `len + 1`, and it equals `len + 1` only for
+    the range `[0, len)` — a section or segment that covers the whole input (finding F11: the
+    loader's NUL terminator makes the literal "not larger than the input" fail by one byte). -/
+theorem load_alloc_shape (o : Obj) (img : Bytes) (kind : StreamKind) (isLazy : Bool) (r : LoadRes)
+    (htr : o.trans = []) (hlen : img.length < 18446744073709551616)
+    (h : load o { data := img, kind := kind } isLazy = .ok r) :
+    ∀ a ∈ r.allocs, ∃ off size : Nat, a = size + 1 ∧ off + size ≤ img.length ∧
+      (a = img.length + 1 ↔ off = 0 ∧ size = img.length) := by
+  obtain ⟨r', hr, hp⟩ := load_spec o { data := img, kind := kind } isLazy
+  rw [h] at hr
+  cases hr
+  intro a ha
+  obtain ⟨off, size, h1, h2⟩ := hp.allocs a ha
+  have h3 : off + size ≤ img.length := h2 htr hlen
+  exact ⟨off, size, h1, h3, by omega⟩
+
+/-- No single data buffer requested during a load is larger than the input plus one byte. -/
+theorem load_alloc_bound (o : Obj) (img : Bytes) (kind : StreamKind) (isLazy : Bool) (r : LoadRes)
+    (htr : o.trans = []) (hlen : img.length < 18446744073709551616)
+    (h : load o { data := img, kind := kind } isLazy = .ok r) :
+    ∀ a ∈ r.allocs, a ≤ img.length + 1 := by
+  intro a ha
+  obtain ⟨off, size, h1, h2, -⟩ := load_alloc_shape o img kind isLazy r htr hlen h a ha
+  omega
+
+/-! ### data requests after the load (lazy loads mutate the object) -/
+
+/-- the data-side requests of the inspection interface -/
+inductive Req
+  | secData (i : Nat)      -- sections[i]->get_data()
+  | segData (i : Nat)      -- segments[i]->get_data()
+  | secFree (i : Nat)      -- sections[i]->free_data()
+  | segFree (i : Nat)      -- segments[i]->free_data()
+  deriving Repr
+
+/-- `segment_impl::free_data()` -/
+def segFree (g : Seg) : Seg := if g.isLazy then { g with data := none, isLoaded := false } else g
+
+/-- one request against the object (as Driver/Load.lean executes it); the second component is
+    the list of allocation requests it made -/
+def request (o : Obj) : Req → Obj × List Nat
+  | .secData i =>
+    match o.secs[i]? with
+    | none => (o, [])
+    | some b =>
+      let r := secGetData o.cls o.trans { st := o.stream } b
+      ({ o with secs := o.secs.set i r.2, stream := r.1.st }, r.1.allocs)
+  | .segData i =>
+    match o.segs[i]? with
+    | none => (o, [])
+    | some g =>
+      let r := segGetData o.cls o.trans { st := o.stream } g
+      ({ o with segs := o.segs.set i r.2, stream := r.1.st }, r.1.allocs)
+  | .secFree i =>
+    match o.secs[i]? with
+    | none => (o, [])
+    | some b => ({ o with secs := o.secs.set i b.freeData }, [])
+  | .segFree i =>
+    match o.segs[i]? with
+    | none => (o, [])
+    | some g => ({ o with segs := o.segs.set i (segFree g) }, [])
+
+def requests (o : Obj) : List Req → Obj × List Nat
+  | [] => (o, [])
+  | q :: qs =>
+    let r := request o q
+    let r' := requests r.1 qs
+    (r'.1, r.2 ++ r'.2)
+
+/-- the object-level invariant: what `load_inv` establishes -/
+structure ObjInv (o : Obj) (img : Bytes) : Prop where
+  sdata : o.stream.data = img
+  secs : ∀ b ∈ o.secs, LoadedSec o.trans b img
+  segs : ∀ g ∈ o.segs, LoadedSeg o.trans g img
+
+theorem load_objInv (o : Obj) (img : Bytes) (kind : StreamKind) (isLazy : Bool) (r : LoadRes)
+    (h : load o { data := img, kind := kind } isLazy = .ok r) : ObjInv r.obj img := by
+  obtain ⟨h1, h2, h3, -, h5⟩ := load_inv o img kind isLazy r h
+  exact ⟨h3, h5 ▸ h1, h5 ▸ h2⟩
+
+theorem freeData_inv {tr img} {b : SecBuf} (h : LoadedSec tr b img) : LoadedSec tr b.freeData img := by
+  unfold SecBuf.freeData
+  split
+  · refine ⟨fun d hd => (by simp at hd), fun d hd => (by simp at hd), fun d hd => (by simp at hd), ?_⟩
+    rcases h.ss with h1 | ⟨h1, h2⟩
+    · exact Or.inl h1
+    · exact Or.inr ⟨h1, fun ht => ⟨(h2 ht).1, rfl⟩⟩
+  · exact h
+
+theorem segFree_inv {tr img} {g : Seg} (h : LoadedSeg tr g img) : LoadedSeg tr (segFree g) img := by
+  unfold segFree
+  split
+  · exact h.dropData.of_same rfl rfl rfl rfl rfl
+  · exact h
+
+theorem mem_set {α} {l : List α} {i : Nat} {x y : α} (h : y ∈ l.set i x) : y ∈ l ∨ y = x :=
+  List.mem_or_eq_of_mem_set h
+
+/-- one request keeps the object invariant; its allocation requests are fine -/
+theorem request_inv (o : Obj) (img : Bytes) (q : Req) (h : ObjInv o img) :
+    ObjInv (request o q).1 img ∧ (request o q).1.trans = o.trans ∧
+    ∀ a ∈ (request o q).2, AllocOk o.trans img a := by
+  have hs0 : StOk o.trans img o.stream.kind { st := o.stream } := ⟨h.sdata, rfl, fun a ha => by cases ha⟩
+  cases q with
+  | secData i =>
+    dsimp only [request]
+    split
+    · exact ⟨h, rfl, fun a ha => by cases ha⟩
+    · rename_i b hget
+      obtain ⟨h1, h2, -⟩ := secGetData_spec o.cls o.trans _ b img _ hs0 (h.secs b (List.mem_of_getElem? hget))
+      refine ⟨⟨h1.data, ?_, h.segs⟩, rfl, h1.allocs⟩
+      intro b' hb'
+      rcases mem_set hb' with hb' | rfl
+      · exact h.secs b' hb'
+      · exact h2
+  | segData i =>
+    dsimp only [request]
+    split
+    · exact ⟨h, rfl, fun a ha => by cases ha⟩
+    · rename_i g hget
+      obtain ⟨h1, h2, -⟩ := segGetData_spec o.cls o.trans _ g img _ hs0 (h.segs g (List.mem_of_getElem? hget))
+      refine ⟨⟨h1.data, h.secs, ?_⟩, rfl, h1.allocs⟩
+      intro g' hg'
+      rcases mem_set hg' with hg' | rfl
+      · exact h.segs g' hg'
+      · exact h2
+  | secFree i =>
+    dsimp only [request]
+    split
+    · exact ⟨h, rfl, fun a ha => by cases ha⟩
+    · rename_i b hget
+      refine ⟨⟨h.sdata, ?_, h.segs⟩, rfl, fun a ha => by cases ha⟩
+      intro b' hb'
+      rcases mem_set hb' with hb' | rfl
+      · exact h.secs b' hb'
+      · exact freeData_inv (h.secs b (List.mem_of_getElem? hget))
+  | segFree i =>
+    dsimp only [request]
+    split
+    · exact ⟨h, rfl, fun a ha => by cases ha⟩
+    · rename_i g hget
+      refine ⟨⟨h.sdata, h.secs, ?_⟩, rfl, fun a ha => by cases ha⟩
+      intro g' hg'
+      rcases mem_set hg' with hg' | rfl
+      · exact h.segs g' hg'
+      · exact segFree_inv (h.segs g (List.mem_of_getElem? hget))
+
+/-- Arbitrary interleavings of section/segment data requests and `free_data()` calls, with
+    arbitrary indices, keep the invariants (lazy loads mutate the object and the stream), and
+    every allocation they request is `size+1` for a range inside the input. -/
+theorem getData_inv (img : Bytes) (qs : List Req) :
+    ∀ (o : Obj), ObjInv o img →
+      ObjInv (requests o qs).1 img ∧ ∀ a ∈ (requests o qs).2, AllocOk o.trans img a := by
+  induction qs with
+  | nil => intro o h; exact ⟨h, fun a ha => by cases ha⟩
+  | cons q qs ih =>
+    intro o h
+    obtain ⟨h1, h2, h3⟩ := request_inv o img q h
+    obtain ⟨h4, h5⟩ := ih _ h1
+    refine ⟨h4, ?_⟩
+    intro a ha
+    rcases List.mem_append.mp ha with ha | ha
+    · exact h3 a ha
+    · exact h2 ▸ h5 a ha
+
+/-- … in particular (no translation) none of them exceeds `len + 1`. -/
+theorem getData_alloc_bound (img : Bytes) (qs : List Req) (o : Obj) (h : ObjInv o img)
+    (htr : o.trans = []) (hlen : img.length < 18446744073709551616) :
+    ∀ a ∈ (requests o qs).2, a ≤ img.length + 1 := by
+  intro a ha
+  obtain ⟨off, size, h1, h2⟩ := (getData_inv img qs o h).2 a ha
+  have := h2 htr hlen
+  omega
+
+/-! ### the string reader on loaded sections -/
+
+theorem slice_slice (bs : Bytes) (a n b k : Nat) (h : b + k ≤ n) :
+    slice (slice bs a n) b k = slice bs (a + b) k := by
+  unfold slice
+  rw [List.drop_take, List.take_take, List.drop_drop]
+  congr 1; omega
+
+/-- On any section satisfying `LoadedSec`, `get_string(idx)` is memory-safe for EVERY 32-bit
+    index; a returned string lies inside `[0, size)` (terminator included), contains no NUL, and
+    is a run of bytes of the input file. -/
+theorem getString_total {tr img} (b : SecBuf) (hb : LoadedSec tr b img) (idx : BitVec 32) :
+    ∃ r, getString b idx = .ok r ∧
+      ∀ s, r = some s →
+        idx.toNat + s.length < b.size.toNat ∧ (0 : UInt8) ∉ s ∧
+        s = slice img ((dataOff tr b.offset).toNat + idx.toNat) s.length := by
+  obtain ⟨r, hr, hs⟩ := getString_total' b hb.bufOk idx
+  refine ⟨r, hr, ?_⟩
+  intro s h
+  obtain ⟨d, hd, hc⟩ := hs s h
+  refine ⟨hc.inside, hc.noNul, ?_⟩
+  have h1 := (hb.bytes d hd).1
+  have h2 : s = slice (d.take b.size.toNat) idx.toNat s.length := by
+    rw [slice_take (by have := hc.inside; omega)]; exact hc.bytes
+  rw [h1, slice_slice _ _ _ _ _ (by have := hc.inside; omega)] at h2
+  exact h2
+
+/-! ### non-vacuity -/
+
+/-- a 64-byte ELF64/LSB image: just the ELF header, no tables -/
+def img64 : Bytes :=
+  [0x7f, 0x45, 0x4c, 0x46, 2, 1, 1, 0, 0, 0, 0, 0, 0, 0, 0, 0,
+   1, 0, 62, 0, 1, 0, 0, 0, 0, 0, 0, 0, 0, 0, 0, 0,
+   0, 0, 0, 0, 0, 0, 0, 0, 0, 0, 0, 0, 0, 0, 0, 0,
+   0, 0, 0, 0, 64, 0, 56, 0, 0, 0, 64, 0, 0, 0, 0, 0]
+
+example : (load {} { data := img64 } false).toOption.map (·.ok) = some true := by decide
+
+/-- a 208-byte ELF64/LSB image: header, the string table `\0.shstrtab\0` at offset 64, and two
+    section headers at offset 80 (the null section and the string table, `e_shstrndx = 1`) -/
+def img208 : Bytes := [
+   127, 69, 76, 70, 2, 1, 1, 0, 0, 0, 0, 0, 0, 0, 0, 0, 1, 0, 62, 0, 1, 0, 0, 0, 0, 0, 0, 0, 0, 0, 0, 0,
+   0, 0, 0, 0, 0, 0, 0, 0, 80, 0, 0, 0, 0, 0, 0, 0, 0, 0, 0, 0, 64, 0, 56, 0, 0, 0, 64, 0, 2, 0, 1, 0,
+   0, 46, 115, 104, 115, 116, 114, 116, 97, 98, 0, 0, 0, 0, 0, 0, 0, 0, 0, 0, 0, 0, 0, 0, 0, 0, 0, 0, 0, 0, 0, 0,
+   0, 0, 0, 0, 0, 0, 0, 0, 0, 0, 0, 0, 0, 0, 0, 0, 0, 0, 0, 0, 0, 0, 0, 0, 0, 0, 0, 0, 0, 0, 0, 0,
+   0, 0, 0, 0, 0, 0, 0, 0, 0, 0, 0, 0, 0, 0, 0, 0, 1, 0, 0, 0, 3, 0, 0, 0, 0, 0, 0, 0, 0, 0, 0, 0,
+   0, 0, 0, 0, 0, 0, 0, 0, 64, 0, 0, 0, 0, 0, 0, 0, 11, 0, 0, 0, 0, 0, 0, 0, 0, 0, 0, 0, 0, 0, 0, 0,
+   1, 0, 0, 0, 0, 0, 0, 0, 0, 0, 0, 0, 0, 0, 0, 0]
+
+/- eager load of `img208`: succeeds, requests exactly one buffer of 11+1 bytes, and the section
+    name went through the checked string lookup -/
+set_option maxRecDepth 100000 in
+example :
+    (load {} { data := img208 } false).toOption.map
+      (fun r => (r.ok, r.allocs, r.obj.secs.map (fun b => (b.name, b.data.map (·.length))))) =
+    some (true, [12], [([], none), ([46, 115, 104, 115, 116, 114, 116, 97, 98], some 12)]) := by decide
+
+/- the hypotheses of `load_alloc_bound` are met by it -/
+set_option maxRecDepth 100000 in
+example : ∀ a ∈ ((load {} { data := img208 } false).toOption.map (·.allocs)).getD [], a ≤ img208.length + 1 := by
+  decide
+
+/- lazy load, then an interleaving of data requests / frees with in- and out-of-range indices:
+    the freed string table is read again (one more 12-byte request) -/
+set_option maxRecDepth 100000 in
+example :
+    (load {} { data := img208 } true).toOption.map
+      (fun r => (r.allocs,
+        (requests r.obj [.secData 1, .secData 7, .secFree 1, .secData 1, .segData 0]).2,
+        (requests r.obj [.secData 1, .secData 7, .secFree 1]).1.secs.map (·.data.isSome))) =
+    some ([12], [12], [false, false]) := by decide
+
+/- the string reader on the loaded string table at indices 1, 5, 10 (the final NUL) and
+    2^32-1
+    (`toOption`: `some _` = returned, `none` would be a fault) -/
+set_option maxRecDepth 100000 in
+example :
+    (load {} { data := img208 } true).toOption.map
+      (fun r => r.obj.secs.map (fun b => [(getString b 1).toOption, (getString b 5).toOption, (getString b 10).toOption,
+        (getString b 4294967295).toOption])) =
+    some [[some none, some none, some none, some none],
+          [some (some [46, 115, 104, 115, 116, 114, 116, 97, 98]), some (some [116, 114, 116, 97, 98]),
+           some (some []), some none]] := by decide
+
 end ElfioVerif.C01
